@@ -183,63 +183,43 @@ theorem C14_clone_values_partial {E : Env} (hI : Idem E) (hC : CopyStable E) {sr
   cloneSlot_deep_spec hI hC hw hc hk hm oS oD n all hd
 
 /-- **No sharing under a deep clone.**  For `clone_traits(copy=arg)` of any
-object in which every copied trait is copied deeply (`arg = 'deep'` and no
-`copy="ref"/"shallow"` metadata, or `copy="deep"` metadata with any `arg` -
-the case of `copy.deepcopy`) and holds no detached container (`DeepOK`): no
-container object of the clone is a container object of the source, old or
-materialised during the cloning. -/
+well-formed object in which every copied trait is copied deeply (`arg = 'deep'`
+and no `copy="ref"/"shallow"` metadata, or `copy="deep"` metadata with any
+`arg`): no container object of the clone is a container object of the source,
+old or materialised during the cloning. -/
 theorem C14_no_sharing_clone_deep {E : Env} (hI : Idem E) (hC : CopyStable E) (s : Obj) (o' n m : Nat)
     (arg : Option CopyMode) (hmn : m ≤ n) (hb : BelowAll m s.slots)
-    (hd : ∀ sl ∈ s.slots, DeepOK E s.oid arg (copiesAll s.slots) sl) :
+    (hd : ∀ sl ∈ s.slots, DeepOK E arg (copiesAll s.slots) sl) :
     ∀ c ∈ (cloneTraits E s o' arg n).copy.slots, ∀ i ∈ slotIds c,
       ∀ a ∈ (cloneTraits E s o' arg n).orig.slots, i ∉ slotIds a :=
   (cloneL_no_sharing hI hC s.oid o' m arg (copiesAll s.slots) s.slots n hmn hb hd).2.2.2
 
+/-- **No sharing under `copy.deepcopy`.**  `copy.deepcopy(obj)` of any
+well-formed object shares no container object with `obj`, for every trait that
+does not itself ask for sharing through `copy="ref"` / `copy="shallow"`
+metadata - in particular for traits WITHOUT copy metadata (`Any`, `This`, the
+values inside a `Dict`), which before 50c4e1f were handed over by reference
+(finding F70: `__deepcopy__` passed `copy=None`). -/
+theorem C14_no_sharing_deepcopy {E : Env} (hI : Idem E) (hC : CopyStable E) (s : Obj) (o' n m : Nat)
+    (hmn : m ≤ n) (hw : WFObj E s) (hb : BelowAll m s.slots)
+    (hmeta : ∀ sl ∈ s.slots, sl.decl.copy = none ∨ sl.decl.copy = some .deep) :
+    ∀ c ∈ (deepcopyObj E s o' n).copy.slots, ∀ i ∈ slotIds c,
+      ∀ a ∈ (deepcopyObj E s o' n).orig.slots, i ∉ slotIds a := by
+  apply C14_no_sharing_clone_deep hI hC s o' n m (some .deep) hmn hb
+  intro sl hs
+  refine ⟨hw sl hs, fun _ => ?_⟩
+  rcases hmeta sl hs with h | h <;> simp [effMode, h]
+
+/-- Regression example, the input of finding F70: `x = Any()`, `obj.x = []`.
+The deep copy's list is a new object (identity 1, the original's is 0). -/
+example :
+    let d : Decl := { name := "x", shape := .any }
+    let s : Obj := ⟨1, [⟨d, some (.node .lst 0 .plain [] [])⟩]⟩
+    (deepcopyObj E0 s 2 1).copy.slots.flatMap slotIds = [1] ∧
+      (deepcopyObj E0 s 2 1).orig.slots.flatMap slotIds = [0] := by
+  decide
+
 /-! ### Clauses the pinned tree does not satisfy -/
-
-/-- Full clause: `copy.deepcopy(obj)` shares no mutable container with `obj`. -/
-def C14_no_sharing_deepcopy : Prop :=
-  ∀ (E : Env) (s : Obj) (o' n : Nat), WFObj E s → BelowAll n s.slots →
-    ∀ sl ∈ (deepcopyObj E s o' n).copy.slots, ∀ i ∈ slotIds sl,
-      ∀ sl' ∈ (deepcopyObj E s o' n).orig.slots, i ∉ slotIds sl'
-
-/-- Refuted (finding F14): `__deepcopy__` calls `clone_traits(copy=memo.get("traits_copy_mode"))`,
-which is `None` - "copy reference" - at top level (has_traits.py:1686-1693), so
-a trait without `copy` metadata hands its value over by reference.  Witness:
-`x = Any()`, `obj.x = []`, `copy.deepcopy(obj).x is obj.x`. -/
-theorem C14_no_sharing_deepcopy_fails_at : ¬ C14_no_sharing_deepcopy := by
-  intro h
-  let d : Decl := { name := "x", shape := .any }
-  let s : Obj := ⟨1, [⟨d, some (.node .lst 0 .plain [] [])⟩]⟩
-  have hw : WFObj E0 s := by
-    intro sl hs
-    simp only [s, List.mem_singleton] at hs
-    subst hs
-    exact ⟨.any _, fun v _ => .any v⟩
-  have hb : BelowAll 1 s.slots := by
-    intro sl hs
-    simp only [s, List.mem_singleton] at hs
-    subst hs
-    refine ⟨?_, ?_⟩ <;> intro i hi <;> simp [slotIds, ids, idsL, d] at hi <;> omega
-  have := h E0 s 2 1 hw hb ⟨d, some (.node .lst 0 .plain [] [])⟩ (by simp [deepcopyObj, cloneTraits, cloneL,
-    cloneSlot, copiesAll, Decl.copyable, readSlot, copyValue, effMode, assignSlot, validate, s, d]) 0
-    (by simp [slotIds, ids, idsL]) ⟨d, some (.node .lst 0 .plain [] [])⟩ (by simp [deepcopyObj, cloneTraits, cloneL,
-    cloneSlot, copiesAll, Decl.copyable, readSlot, copyValue, effMode, assignSlot, validate, s, d])
-  exact this (by simp [slotIds, ids, idsL])
-
-/-- Proved for every trait that carries `copy="deep"` metadata (what `List`,
-`Set` and `Instance` default to) and holds no detached container: then
-`copy.deepcopy` behaves as `clone_traits(copy='deep')`. -/
-theorem C14_no_sharing_deepcopy_partial {E : Env} (hI : Idem E) (hC : CopyStable E) {src : Slot}
-    (hw : WFSlot E src) (hc : src.decl.copyable = true) (hk : src.decl.kind ≠ .event)
-    (hm : src.decl.copy = some .deep) (oS oD n : Nat) (all : Bool)
-    (hd : NoDetached (readSlot E oS n src).1) :
-    let r := cloneSlot E oS oD none all n src
-    ∃ w, r.1.val = some w ∧ norm w = norm (readSlot E oS n src).1 ∧ Live E oD src.decl.shape w ∧
-      (∀ i ∈ ids w, (readSlot E oS n src).2.2 ≤ i) := by
-  have := cloneSlot_deep_spec' hI hC hw hc hk (arg := none) (by simp [effMode, hm]) oS oD n all hd
-  obtain ⟨w, h1, _, h3, h4, h5, _⟩ := this
-  exact ⟨w, h1, h3, h4, h5⟩
 
 /-- Full clause: a clone holds, for every copyable trait, a value equal to the source's. -/
 def C14_clone_values : Prop :=
